@@ -3,7 +3,8 @@ import DoitModel.Proofs.C08Dyn1
 
 `Ranked` is the hypothesis of C09 (`Proofs/C09Dep.lean`; restated here because that file and `Proofs/C08Conf8.lean` both
 define a `Run.Acyclic`): a rank decreases along every edge of `Dep` — task_dep, setup-task, calc_dep (static or
-deliverable) and every task_dep / file_dep owner a (possibly delivered) calc_dep can deliver.  The dependencies the
+deliverable) and every task_dep / file_dep owner a (possibly delivered) calc_dep can deliver, executed successfully
+(`calcRes`) or failed during its execution (`calcResFail`).  The dependencies the
 denotation reads (`Dyn.DepOf`, the edges that ARE delivered under the derived outcomes) are among them. -/
 namespace DoitModel.Run.Dyn
 
@@ -11,6 +12,7 @@ namespace DoitModel.Run.Dyn
 inductive CalcAny (inp : RunInput) (n : Name) : Name → Prop
   | base {c : Name} : c ∈ inp.calcDep n → CalcAny inp n c
   | res {p c : Name} : CalcAny inp n p → c ∈ (inp.calcRes p).calcs → CalcAny inp n c
+  | resFail {p c : Name} : CalcAny inp n p → c ∈ (inp.calcResFail p).calcs → CalcAny inp n c
 
 /-- `n` depends on `d`: task_dep, calc_dep, setup-task, or a task_dep / file_dep owner delivered by one of its
     (possibly delivered) calc_deps — whatever the outcomes -/
@@ -20,6 +22,8 @@ inductive Dep (inp : RunInput) : Name → Name → Prop
   | setup {n d : Name} : d ∈ inp.setup n → Dep inp n d
   | resT {n p d : Name} : CalcAny inp n p → d ∈ (inp.calcRes p).tasks → Dep inp n d
   | resF {n p d : Name} : CalcAny inp n p → d ∈ (inp.calcRes p).files → Dep inp n d
+  | resTFail {n p d : Name} : CalcAny inp n p → d ∈ (inp.calcResFail p).tasks → Dep inp n d
+  | resFFail {n p d : Name} : CalcAny inp n p → d ∈ (inp.calcResFail p).files → Dep inp n d
 
 /-- `rank` decreases along every dependency edge -/
 def Ranked (inp : RunInput) (rank : Name → Nat) : Prop := ∀ n d, Dep inp n d → rank d < rank n
@@ -27,14 +31,24 @@ def Ranked (inp : RunInput) (rank : Name → Nat) : Prop := ∀ n d, Dep inp n d
 theorem CalcOf.toDep {inp : RunInput} {dd : Name → Den} {n c : Name} (h : CalcOf inp dd n c) : CalcAny inp n c := by
   induction h with
   | static hc => exact CalcAny.base hc
-  | deliv _ _ hm ih => exact CalcAny.res ih hm
+  | @deliv c x _ hm ih =>
+    rcases delivOf_cases inp c (dd c) with ⟨_, e⟩ | ⟨_, _, e⟩ | e <;> rw [e] at hm
+    · exact CalcAny.res ih hm
+    · exact CalcAny.resFail ih hm
+    · cases hm
 
 theorem DepOf.toDep {inp : RunInput} {dd : Name → Den} {n x : Name} (h : DepOf inp dd n x) : Dep inp n x := by
-  rcases h with a | a | ⟨c, hc, _, m | m⟩
+  rcases h with a | a | ⟨c, hc, m⟩
   · exact Dep.task a
   · exact Dep.ofCalc a.toDep
-  · exact Dep.resT hc.toDep m
-  · exact Dep.resF hc.toDep m
+  · rcases delivOf_cases inp c (dd c) with ⟨_, e⟩ | ⟨_, _, e⟩ | e <;> rw [e] at m
+    · rcases m with m | m
+      · exact Dep.resT hc.toDep m
+      · exact Dep.resF hc.toDep m
+    · rcases m with m | m
+      · exact Dep.resTFail hc.toDep m
+      · exact Dep.resFFail hc.toDep m
+    · rcases m with m | m <;> cases m
 
 /-- on an acyclic graph whose dependency edges stay below `N`, every task has a derived outcome (and by
     `DenOf.functional` exactly one) -/
